@@ -144,6 +144,13 @@ func envInt(name string, def int64) int64 {
 	return n
 }
 
+var fuzzing bool
+
+// Fuzzing reports whether this process runs (or coordinates) a native fuzzing campaign.
+// Generators use it to keep single cases cheap: the fuzzing engine kills a worker whose
+// input takes longer than a few seconds, which would end the campaign without a verdict.
+func Fuzzing() bool { return fuzzing }
+
 // Tier returns the tier this process runs in ("quick" unless VERIF_TIER says otherwise).
 func Tier() string {
 	if os.Getenv("VERIF_TIER") == "thorough" {
@@ -498,6 +505,7 @@ func (r *runner[C]) replay(t *testing.T, path string) {
 // fuzzer (thorough tier).  A failing input is written as a replay file at once,
 // because the fuzzing worker is a separate process.
 func Fuzz[C any](f *testing.F, p *Prop[C]) {
+	fuzzing = true
 	r := newRunner(p)
 	r.fuzz = true
 	r.phase = "fuzz"
